@@ -14,7 +14,7 @@
      "{a" and the parameter label "{b}c/", whose name "b" is used again by the child "{b}".
    - Consequently C01_dispatch_text_unconditional (C01_dispatch_text_strong without its side
      conditions) is FALSE as well: C01_dispatch_text_unconditional_refuted, on the history
-     cx_hist4 (four registrations) the request "/x/{a1c/2/z" is served by the route
+     cx_hist4 (four registrations, all accepted) the request "/x/{a1c/2/z" is served by the route
      "/x/{a{b}c/{k}" with the parameters {k} only: the "b" written by "{b}c/" was deleted when
      the sibling chain "{b}/" was abandoned.
    - What holds: C01_names_fresh_reachable_partial adds the hypothesis [hist_wf hist = true]
@@ -126,30 +126,27 @@ Theorem C01_names_counterexample :
   sval (nseg a) = bs "/x/" /\ sval (nseg b) = bs "{a" /\
   sval (nseg c) = bs "{b}c/" /\ sname (nseg c) = bs "b" /\ seg_sets (nseg c) = true /\
   sval (nseg d) = bs "{b}" /\ sname (nseg d) = bs "b" /\ npat d = bs "/x/{a{b}c/{b}".
-Proof. exact (conj cx_hist_accepted (conj cx_hist_not_wf cx_chain)). Qed.
+Proof. exact names_counterexample. Qed.
 Print Assumptions C01_names_counterexample.
 
 Theorem C01_dispatch_counterexample :
   all_accepted (new_tree (bs "r") [] false) cx_hist4 = true /\
-  match tree_handler cx_tree4 GET cx_path [] with
-  | HFound true (Some n) h ps =>
-    npat n = bs "/x/{a{b}c/{k}" /\ h = HUser (bs "h3") /\ ps = [(bs "k", bs "2/z")]
-  | _ => False
-  end.
-Proof. exact (conj cx_hist4_accepted cx_dispatch4). Qed.
+  exists n,
+    tree_handler cx_tree4 GET cx_path [] = HFound true (Some n) (HUser (bs "h3")) [(bs "k", bs "2/z")] /\
+    npat n = bs "/x/{a{b}c/{k}".
+Proof. exact dispatch_counterexample. Qed.
 Print Assumptions C01_dispatch_counterexample.
 
 (* ---------------------------------------------------------------- example *)
 Theorem C01_names_example :
   all_accepted (new_tree (bs "r") [] false) ex_names_hist = true /\ hist_wf ex_names_hist = true /\
-  match tree_handler ex_names_tree GET (bs "/users/5/7/log") [] with
-  | HFound true (Some n) h ps =>
-    npat n = bs "/users/{id}/{action}/log" /\ h = HUser (bs "log") /\
-    ps = [(bs "id", bs "5"); (bs "action", bs "7")] /\
-    ctx_get ps (bs "action") = Some (bs "7") /\ ctx_get ps (bs "id") = Some (bs "5")
-  | _ => False
-  end.
-Proof. exact (conj ex_names_accepted (conj ex_names_wf ex_names_dispatch)). Qed.
+  exists n,
+    tree_handler ex_names_tree GET (bs "/users/5/7/log") [] =
+      HFound true (Some n) (HUser (bs "log")) [(bs "id", bs "5"); (bs "action", bs "7")] /\
+    npat n = bs "/users/{id}/{action}/log" /\
+    ctx_get [(bs "id", bs "5"); (bs "action", bs "7")] (bs "action") = Some (bs "7") /\
+    ctx_get [(bs "id", bs "5"); (bs "action", bs "7")] (bs "id") = Some (bs "5").
+Proof. exact names_example. Qed.
 Print Assumptions C01_names_example.
 
 Theorem C01_names_example_fresh : all_nodes names_fresh_at (troot ex_names_tree).
